@@ -4,8 +4,8 @@ package apph
 //
 // Generated block histories (stake / unstake around the minimum self delegation and the top-count
 // boundary, withdraw, allegation -> votes -> verdict -> release, missed votes, byzantine evidence,
-// the staking-option change of the fork block, stakes carrying a foreign or non-ed25519 key) run
-// on the real application; every ResponseEndBlock.ValidatorUpdates is applied to the real
+// the staking-option change of the fork block and of a passed proposal, stakes carrying a foreign
+// or non-ed25519 key - refused since the repair) run on the real application; every ResponseEndBlock.ValidatorUpdates is applied to the real
 // types.ValidatorSet.UpdateWithChangeSet with the +2 delay (Sim).
 //
 // MONITOR (independent of the Lean model), per block, on the decoded dump of the previous block:
@@ -14,7 +14,11 @@ package apph
 //   * every positive update names a record of the previous block with power >= minimum self
 //     delegation, not frozen / flagged, carrying that power; at most TopValidatorCount of them;
 //     no eligible record with a higher power is left out,
-//   * after a quiet tail the Tendermint set is exactly the election of the (constant) records.
+//   * after a quiet tail the Tendermint set is exactly the election of the (constant) records,
+//   * the handler facts the multi-block theorems assume: no record changes its consensus key, a
+//     new record carries the ed25519 key of its address, a deleted record belongs to no pending set.
+// Round 1 found six defects with these monitors (known_findings.json, "fixed:" lines of C10); the
+// scripted histories that exposed them stay as regression scenarios and must produce no hit.
 // CORRESPONDENCE: the Lean model of GetEndBlockUpdate is run on the decoded hook inputs of every
 // block (records of version h-1, votes, malicious set, purge heights, statuses, options) and its
 // updates / status writes / deletions / purge writes are compared with the implementation's; the
@@ -153,7 +157,7 @@ func decodeElect(m map[string]string) *eView {
 	return v
 }
 
-// elOverlay applies the pending writes of the deliver state to a dump map.
+// overlay applies the pending writes of the deliver state to a dump map.
 func elOverlay(m map[string]string, pend []kvp) map[string]string {
 	out := make(map[string]string, len(m)+len(pend))
 	for k, v := range m {
@@ -253,7 +257,7 @@ func scriptedPlans(seed uint64) []ePlan {
 	}
 	var out []ePlan
 	// 1. every validator unstakes below the minimum self delegation
-	out = append(out, ePlan{Name: "script-all-below-min", P: base(2, 0, 4, 5, 10, 10), Blocks: 6,
+	out = append(out, ePlan{Name: "script-all-below-min", P: base(2, 0, 4, 5, 10, 10), Blocks: 14,
 		Next: func(h int64, v *eView, g *Gen, sim *Sim) eBlock {
 			if h == 2 {
 				return eBlock{Txs: []GenTx{g.eUnstake(g.W.Vals[0], 6, "below-min"), g.eUnstake(g.W.Vals[1], 6, "below-min")}}
@@ -261,7 +265,7 @@ func scriptedPlans(seed uint64) []ePlan {
 			return eBlock{}
 		}})
 	// 2. S16: a candidate stakes with another validator's consensus key
-	out = append(out, ePlan{Name: "script-foreign-pubkey", P: base(2, 1, 4, 5, 10, 12), Blocks: 6,
+	out = append(out, ePlan{Name: "script-foreign-pubkey", P: base(2, 1, 4, 5, 10, 12), Blocks: 14,
 		Next: func(h int64, v *eView, g *Gen, sim *Sim) eBlock {
 			if h == 2 {
 				return eBlock{Txs: []GenTx{g.eStakeKey(g.W.Vals[2], 8, g.W.Vals[0].Key.Pub, "foreign-pubkey")}}
@@ -269,7 +273,7 @@ func scriptedPlans(seed uint64) []ePlan {
 			return eBlock{}
 		}})
 	// 3. a candidate stakes with a secp256k1 key as its consensus key
-	out = append(out, ePlan{Name: "script-secp-pubkey", P: base(2, 1, 4, 5, 10, 12), Blocks: 6,
+	out = append(out, ePlan{Name: "script-secp-pubkey", P: base(2, 1, 4, 5, 10, 12), Blocks: 14,
 		Next: func(h int64, v *eView, g *Gen, sim *Sim) eBlock {
 			if h == 2 {
 				return eBlock{Txs: []GenTx{g.eStakeKey(g.W.Vals[2], 8, secpKeyOf(g.W.Vals[2]), "secp-pubkey")}}
@@ -277,7 +281,7 @@ func scriptedPlans(seed uint64) []ePlan {
 			return eBlock{}
 		}})
 	// 4. a fresh validator unstakes everything before it enters the set
-	out = append(out, ePlan{Name: "script-stake-then-unstake-all", P: base(2, 1, 4, 5, 10, 12), Blocks: 12,
+	out = append(out, ePlan{Name: "script-stake-then-unstake-all", P: base(2, 1, 4, 5, 10, 12), Blocks: 18,
 		Next: func(h int64, v *eView, g *Gen, sim *Sim) eBlock {
 			switch h {
 			case 2:
@@ -391,7 +395,7 @@ func scriptedPlans(seed uint64) []ePlan {
 			return eBlock{}
 		}})
 	// 9. S20: the only validator unstakes everything; the next end block divides by total power 0
-	out = append(out, ePlan{Name: "script-zero-total-power", P: base(1, 0, 4, 5, 10), Blocks: 6,
+	out = append(out, ePlan{Name: "script-zero-total-power", P: base(1, 0, 4, 5, 10), Blocks: 14,
 		Next: func(h int64, v *eView, g *Gen, sim *Sim) eBlock {
 			switch h {
 			case 2:
@@ -424,10 +428,10 @@ func randomPlan(seed uint64, c int, r *rng.R, blocks, maxTxs int) ePlan {
 		p.BlockVotesDiff = int64(4 + r.Intn(2))
 		p.MinVotesReq = int64(1 + r.Intn(int(p.BlockVotesDiff)-2))
 	}
-	// one history in four is "wild": it may walk into the situations behind the known findings
-	// (nobody left to elect, foreign / secp256k1 consensus keys, a fresh validator leaving before it
-	// entered the set, the first vote window). The others keep validator 0 as an untouched anchor
-	// and avoid those, so that the rest of the mechanism is explored to the end of the history.
+	// one history in four is "wild": nobody may be left to elect, stakes carry foreign / secp256k1
+	// consensus keys (refused by STAKE since the repair), the whole history may stay inside the
+	// first vote window, honest validators may be flagged for missed votes. The others keep
+	// validator 0 as an untouched anchor so that somebody is always eligible.
 	wild := r.Intn(4) == 0
 	fork := r.Intn(6) == 0
 	scale := int64(1)
@@ -455,7 +459,7 @@ func randomPlan(seed uint64, c int, r *rng.R, blocks, maxTxs int) ePlan {
 		}
 		p.GenesisStake = append(p.GenesisStake, st)
 	}
-	tail := 7
+	tail := 10
 	lazy := -1
 	lazyFrom, lazyTo := int64(0), int64(0)
 	if r.Intn(3) == 0 {
@@ -478,15 +482,6 @@ func randomPlan(seed uint64, c int, r *rng.R, blocks, maxTxs int) ePlan {
 			i = 1 + r.Intn(len(g.W.Vals)-1)
 		}
 		return g.W.Vals[i], i == 0
-	}
-	// stably active: in the sets of this and the next block, not purged in the last blocks
-	stable := func(val *Val, h int64, v *eView, sim *Sim) bool {
-		a := val.Key.tm.PubKey().Address()
-		if sim.Sets[h] == nil || sim.Sets[h+1] == nil || !sim.Sets[h].HasAddress(a) || !sim.Sets[h+1].HasAddress(a) {
-			return false
-		}
-		ph := v.Purge[hex.EncodeToString(val.Key.Addr)]
-		return ph == 0 || ph+3 < h
 	}
 	return ePlan{Name: name, P: p, Blocks: blocks, Next: func(h int64, v *eView, g *Gen, sim *Sim) eBlock {
 		var b eBlock
@@ -523,41 +518,26 @@ func randomPlan(seed uint64, c int, r *rng.R, blocks, maxTxs int) ePlan {
 				if amt <= 0 {
 					amt = 1
 				}
-				if hasRec(v, val) && powerOf(v, val) <= 0 {
-					// the record is deleted at the end of this block whatever the block does to it: a
-					// stake now is lost from the record (C11) and the later negative power ends in
-					// logger.Fatal inside the fee distribution (C18) - not this engine's subject
-					break
-				}
 				b.Txs = append(b.Txs, g.eStake(val, amt, "stake"))
 			case x < 56: // unstake: to the minimum, one below, everything, one, random
 				amt := []int64{cur - min, cur - min + 1, cur, 1, int64(1 + r.Intn(8))}[r.Intn(5)]
 				if amt <= 0 {
 					amt = 1
 				}
-				if !wild && amt >= cur && hasRec(v, val) && !stable(val, h, v, sim) {
-					amt = cur - 1 // leaving completely is only generated for a stably active validator
-					if amt <= 0 {
-						break
-					}
-				}
 				pendingOut[string(val.Key.Addr)] += amt
 				b.Txs = append(b.Txs, g.eUnstake(val, amt, "unstake"))
 			case x < 60:
 				b.Txs = append(b.Txs, g.mkPlain("WITHDRAW", "maybe", &staking.Withdraw{ValidatorAddress: val.Key.Addr, StakeAddress: val.Owner.Addr, Stake: OLTInt(int64(1 + r.Intn(6)))}, val.Owner, val.Key))
-			case x < 64: // S16: somebody else's consensus key
-				if wild && !hasRec(v, val) {
+			case x < 64: // S16: somebody else's consensus key (refused since the repair)
+				if !hasRec(v, val) {
 					other := g.W.Vals[r.Intn(len(g.W.Vals))]
 					b.Txs = append(b.Txs, g.eStakeKey(val, min+int64(r.Intn(4)), other.Key.Pub, "foreign-pubkey"))
 				}
-			case x < 66: // secp256k1 consensus key
-				if wild && !hasRec(v, val) {
+			case x < 66: // secp256k1 consensus key (refused since the repair)
+				if !hasRec(v, val) {
 					b.Txs = append(b.Txs, g.eStakeKey(val, min+int64(r.Intn(4)), secpKeyOf(val), "secp-pubkey"))
 				}
 			case x < 74: // allegation by an active validator
-				if !wild && h < p.BlockVotesDiff {
-					break // a verdict inside the first vote window is the known frozen-validator-elected finding
-				}
 				m, _ := pick(g)
 				reqN++
 				id := fmt.Sprintf("er-%d-%d", p.Seed, reqN)
@@ -610,7 +590,7 @@ func elJoinOrDash(l []string) string {
 }
 
 // electOpLine renders the decoded hook inputs of block h.
-func electOpLine(h int64, minSelf, top, votesDiff int64, prev *eView, votes []abci.VoteInfo, frozen, flagged []string) string {
+func electOpLine(h int64, minSelf, top int64, prev, pre *eView, votes []abci.VoteInfo, frozen, flagged []string) string {
 	var recs, act, pur, st []string
 	for _, r := range prev.Recs {
 		recs = append(recs, fmt.Sprintf("%s:%s:%d:%d", hx(r.Addr), hx(r.Pub), r.KType, r.Power))
@@ -638,7 +618,11 @@ func electOpLine(h int64, minSelf, top, votesDiff int64, prev *eView, votes []ab
 		}
 		st = append(st, fmt.Sprintf("%s:%d:%d", k, b, prev.Status[k].Height))
 	}
-	return fmt.Sprintf("elect %d %d %d %d recs=%s act=%s frozen=%s flagged=%s purge=%s st=%s", h, minSelf, top, votesDiff, elJoinOrDash(recs), elJoinOrDash(act), elJoinOrDash(frozen), elJoinOrDash(flagged), elJoinOrDash(pur), elJoinOrDash(st))
+	var cur []string
+	for _, r := range pre.Recs { // the records of the deliver state when EndBlock starts (vs.Get)
+		cur = append(cur, fmt.Sprintf("%s:%d", hx(r.Addr), r.Power))
+	}
+	return fmt.Sprintf("elect %d %d %d recs=%s act=%s frozen=%s flagged=%s purge=%s st=%s cur=%s", h, minSelf, top, elJoinOrDash(recs), elJoinOrDash(act), elJoinOrDash(frozen), elJoinOrDash(flagged), elJoinOrDash(pur), elJoinOrDash(st), elJoinOrDash(cur))
 }
 
 func ktypeOfABCI(t string) int {
@@ -878,7 +862,7 @@ type electCase struct {
 }
 
 func RunElect(opt ElectOptions) (*Result, error) {
-	res := NewResult("elect", opt.Seed, "case = one block history on the real application: 10 scripted minimal histories (the known-finding replays, equal stakes at the top-count boundary, verdict and release, the fork block's option change, a passed CONFIG_UPDATE proposal raising the minimum self delegation and the top count) and generated ones (1-5 genesis validators + 1-4 candidates around TopValidatorCount in {1,2,4} and the minimum self delegation; stake / unstake to the boundary / unstake all / withdraw / allegation-vote-release / absent signers / byzantine evidence / fork-block option change; one in four also foreign and secp256k1 consensus keys, leaving inside two blocks, the first vote window; 7 quiet blocks at the end). Every update list is applied to the real ValidatorSet.UpdateWithChangeSet with the +2 delay; per block the Lean election is run on the decoded hook inputs and compared with the returned updates and the status / record / purge deltas, and the Lean port of the Tendermint rule with the real outcome. non-trivial = at least one successful STAKE or UNSTAKE, one power-0 update and one record not named by a positive update; distinct = SHA-256 of the history lines. Plus component cases: all priority lists of length <= 6 over 3 values and random lists with ties against the real ValidatorQueue (pop order compared exactly), random change lists with boundary powers and both key types against the real UpdateWithChangeSet (every rejection reason)")
+	res := NewResult("elect", opt.Seed, "case = one block history on the real application: 10 scripted minimal histories (the regression scenarios of the six repaired defects, equal stakes at the top-count boundary, verdict and release, the fork block's option change, a passed CONFIG_UPDATE proposal raising the minimum self delegation and the top count) and generated ones (1-5 genesis validators + 1-4 candidates around TopValidatorCount in {1,2,4} and the minimum self delegation; stake / unstake to the boundary / unstake all / withdraw / allegation-vote-release / absent signers / byzantine evidence / fork-block option change; foreign and secp256k1 consensus keys (refused), leaving inside two blocks; one in four may leave nobody eligible or stay inside the first vote window; 10 quiet blocks at the end). Every update list is applied to the real ValidatorSet.UpdateWithChangeSet with the +2 delay; per block the Lean election is run on the decoded hook inputs and compared with the returned updates and the status / record / purge deltas, and the Lean port of the Tendermint rule with the real outcome. non-trivial = at least one successful STAKE or UNSTAKE, one power-0 update and one record not named by a positive update; distinct = SHA-256 of the history lines. Plus component cases: all priority lists of length <= 6 over 3 values and random lists with ties against the real ValidatorQueue (pop order compared exactly), random change lists with boundary powers and both key types against the real UpdateWithChangeSet (every rejection reason)")
 	if opt.Replay != "" {
 		return replayElect(opt, res)
 	}
@@ -931,6 +915,9 @@ func RunElect(opt ElectOptions) (*Result, error) {
 		}
 		all = append(all, *ec)
 		res.Evaluations++
+		if d := os.Getenv("OLH_ELECT_SAVE"); d != "" && strings.HasPrefix(plan.Name, "script-") {
+			ioutil.WriteFile(d+"/"+plan.Name+".replay", []byte(strings.Join(hl.Lines, "\n")+"\n"), 0644) // development aid: refresh corpus/C10
+		}
 		h := sha256.Sum256([]byte(strings.Join(hl.Lines, "\n")))
 		if !seen[h] {
 			seen[h] = true
@@ -1139,8 +1126,8 @@ func runElectHistory(opt ElectOptions, c int, plan ePlan, r *rng.R, res *Result,
 		if !optsOK {
 			minSelf, top = p.MinSelfDeleg, p.TopValidators
 		}
-		// malicious set of the block = frozen records at BeginBlock (when the height check lets
-		// CheckMaliciousValidators look at them at all) + records it created itself
+		// malicious set of the block = frozen records at BeginBlock + records BeginBlock created itself
+		// (missed votes; none while the height is inside the first vote window)
 		flagged := map[string]bool{} // hex addr: written by BeginBlock
 		for _, kvp := range pendBegin {
 			if strings.HasPrefix(string(kvp.k), "es__ssvk_") {
@@ -1162,13 +1149,12 @@ func runElectHistory(opt ElectOptions, c int, plan ePlan, r *rng.R, res *Result,
 		}
 		sort.Strings(frozenL)
 		sort.Strings(flaggedL)
-		if h > votesDiff {
-			mal = append(append(mal, frozenL...), flaggedL...) // for the trace only
-		}
+		mal = append(append(mal, frozenL...), flaggedL...)
+		preView := decodeElect(pre)
 
 		// ---- correspondence lines
 		if h >= 1 {
-			ec.ops = append(ec.ops, electOpLine(h, minSelf, top, votesDiff, prev, b.Votes, frozenL, flaggedL))
+			ec.ops = append(ec.ops, electOpLine(h, minSelf, top, prev, preView, b.Votes, frozenL, flaggedL))
 			ec.impl = append(ec.impl, electImplLine(br.Updates, prev, cur))
 		}
 
@@ -1229,11 +1215,7 @@ func runElectHistory(opt ElectOptions, c int, plan ePlan, r *rng.R, res *Result,
 			}
 			if !ok {
 				if frozenHit {
-					if h <= votesDiff {
-						hit("frozen-validator-elected-inside-first-window", fmt.Sprintf("block %d: update %x:%d names a validator that is frozen in the records of block %d (height %d <= blockVotesDiff %d: the malicious map is not filled)", h, u.PubKey.Data, u.Power, h-1, h, votesDiff))
-					} else {
-						hit("frozen-validator-elected", fmt.Sprintf("block %d: update %x:%d names a validator that is frozen or flagged in the records of block %d (blockVotesDiff %d)", h, u.PubKey.Data, u.Power, h-1, votesDiff))
-					}
+					hit("frozen-validator-elected", fmt.Sprintf("block %d: update %x:%d names a validator that is frozen or flagged in the records of block %d (blockVotesDiff %d)", h, u.PubKey.Data, u.Power, h-1, votesDiff))
 				} else {
 					hit("positive-update-violates-staking-rule", fmt.Sprintf("block %d: update %x:%d has no record of block %d with that key, that power and power >= %d; records: %s", h, u.PubKey.Data, u.Power, h-1, lowMin, recStr(prev)))
 				}
@@ -1253,7 +1235,7 @@ func runElectHistory(opt ElectOptions, c int, plan ePlan, r *rng.R, res *Result,
 				if topPrev < loTop {
 					loTop = topPrev
 				}
-				if rcd.Power >= hiMin && !frozenOrFlagged(a) && !named[string(rcd.Addr)] && (h > votesDiff || !prev.Frozen[a]) {
+				if rcd.Power >= hiMin && !frozenOrFlagged(a) && !named[string(rcd.Addr)] {
 					leftOut++
 					if int64(positives) < loTop {
 						hit("eligible-validator-not-elected", fmt.Sprintf("block %d: record %x power %d is eligible (min %d), only %d of %d seats taken: %s", h, rcd.Addr, rcd.Power, hiMin, positives, loTop, updStr(br.Updates)))
@@ -1294,7 +1276,7 @@ func runElectHistory(opt ElectOptions, c int, plan ePlan, r *rng.R, res *Result,
 				inMal[a] = true
 			}
 			if h <= votesDiff && len(frozenL) > 0 {
-				res.Distribution["branch:frozen-ignored-inside-first-window"]++
+				res.Distribution["branch:frozen-kept-out-inside-first-window"]++
 			}
 			for _, rcd := range prev.Recs {
 				a := hex.EncodeToString(rcd.RAddr)
@@ -1314,11 +1296,13 @@ func runElectHistory(opt ElectOptions, c int, plan ePlan, r *rng.R, res *Result,
 					}
 				}
 				if rcd.Power <= 0 {
-					res.Distribution["branch:record-deleted"]++
+					res.Distribution["branch:record-without-power"]++
 				}
 				if !elected {
 					ph := prev.Purge[hex.EncodeToString(rcd.Addr)]
 					switch {
+					case positives == 0:
+						res.Distribution["branch:nobody-elected-purge-held-back"]++
 					case !voters[string(rcd.Addr)]:
 						res.Distribution["branch:non-top-not-in-last-commit"]++
 					case ph > 0 && h <= ph+2:
@@ -1374,6 +1358,37 @@ func runElectHistory(opt ElectOptions, c int, plan ePlan, r *rng.R, res *Result,
 			ec.impl = append(ec.impl, "ok "+tmSetStr(after))
 			res.Distribution["tm:ok"]++
 		}
+		// ---- the facts about the records the multi-block theorems take as side conditions
+		if !stopped {
+			prevByAddr := map[string]eRec{}
+			for _, rcd := range prev.Recs {
+				prevByAddr[string(rcd.Addr)] = rcd
+			}
+			for _, rcd := range cur.Recs {
+				if old, ok := prevByAddr[string(rcd.Addr)]; ok {
+					if !bytes.Equal(old.Pub, rcd.Pub) || old.KType != rcd.KType {
+						hit("record-consensus-key-changed", fmt.Sprintf("block %d: record %x had key %x, now %x", h, rcd.Addr, old.Pub, rcd.Pub))
+					}
+				} else if h > 1 && (rcd.KType != 0 || !bytes.Equal(keyAddr(rcd.Pub), rcd.Addr)) {
+					hit("unbound-consensus-key-staked", fmt.Sprintf("block %d: new record %x carries key %x (type %d), which is not the ed25519 key of that address", h, rcd.Addr, rcd.Pub, rcd.KType))
+				}
+			}
+			have := map[string]bool{}
+			for _, rcd := range cur.Recs {
+				have[string(rcd.Addr)] = true
+			}
+			for _, rcd := range prev.Recs {
+				if have[string(rcd.Addr)] {
+					continue
+				}
+				res.Distribution["branch:record-vanished"]++
+				for d := int64(-1); d <= 2; d++ {
+					if set := sim.Sets[h+d]; set != nil && set.HasAddress(rcd.Addr) {
+						hit("deleted-record-of-pending-validator", fmt.Sprintf("block %d deleted the record of %x, which is in the Tendermint set of block %d: %s", h, rcd.Addr, h+d, tmSetStr(set)))
+					}
+				}
+			}
+		}
 		prevDump, prev = dump, cur
 	}
 	// ---- convergence after the quiet tail
@@ -1387,7 +1402,11 @@ func runElectHistory(opt ElectOptions, c int, plan ePlan, r *rng.R, res *Result,
 		// records of versions q..L are identical
 		if L-q >= 5 {
 			res.Counters["convergence_checked"]++
-			if msg, sig := convergenceCheck(last, sim.Sets[int64(L)+1], int64(L), evidenceVotesDiff(prevDump, p.BlockVotesDiff)); msg != "" {
+			msg, sig := convergenceCheck(last, sim.Sets[int64(L)+1], int64(L), evidenceVotesDiff(prevDump, p.BlockVotesDiff))
+			if sig == "nobody-eligible" {
+				res.Counters["convergence_nobody_eligible"]++
+			}
+			if msg != "" {
 				hit(sig, fmt.Sprintf("records constant since block %d, Tendermint set of block %d: %s; %s; records: %s", q, L+1, tmSetStr(sim.Sets[int64(L)+1]), msg, recStr(last)))
 			}
 		} else {
@@ -1513,6 +1532,11 @@ func convergenceCheck(v *eView, set *tmtypes.ValidatorSet, height, votesDiff int
 		}
 		return dflt
 	}
+	if len(elig) == 0 {
+		// nobody can be elected: the application returns no updates at all and the last set stays
+		// (Tendermint has no empty validator set); there is no election to converge to
+		return "", "nobody-eligible"
+	}
 	want := int64(len(elig))
 	if v.Top < want {
 		want = v.Top
@@ -1528,8 +1552,6 @@ func convergenceCheck(v *eView, set *tmtypes.ValidatorSet, height, votesDiff int
 			switch {
 			case rec == nil:
 				return fmt.Sprintf("member %s (power %d) has no stake record at all", a, m.VotingPower), sigOf("active-validator-without-stake-record")
-			case v.Frozen[hex.EncodeToString(rec.RAddr)] && height <= votesDiff:
-				return fmt.Sprintf("member %s (power %d) is frozen and stays elected while height %d <= blockVotesDiff %d", a, m.VotingPower, height, votesDiff), sigOf("frozen-validator-elected-inside-first-window")
 			}
 			return fmt.Sprintf("member %s (power %d) has a record that is not eligible (power %d, min %d, frozen %v)", a, m.VotingPower, rec.Power, v.MinSelf, v.Frozen[hex.EncodeToString(rec.RAddr)]), sigOf("ineligible-validator-stays-active")
 		}
